@@ -332,7 +332,7 @@ func family(name string) string {
 			return f
 		}
 	}
-	if name == "open-write-files" {
+	if name == "open-write-files" || strings.HasPrefix(name, "files-") {
 		return "files"
 	}
 	return "list"
